@@ -1,4 +1,5 @@
 import CTV.Lemmas.FrontEnd
+import CTV.Rfc6962.Wire
 /-!
 # C06 — the log front end presents one verifiable, append-only history
 
@@ -537,6 +538,29 @@ theorem encLeaf_inj (e e' : Entry) (ts ts' : Nat) (he : EntryWf e) (he' : EntryW
       obtain ⟨_, h5⟩ := List.append_inj h4 h3
       have := List.append_cancel_right h5
       rw [hk, this]
+
+/-- `encLeaf` **is** the shared RFC 6962 wire library's `MerkleTreeLeaf` (`CTV/Rfc6962/Wire.lean`, the
+    transcription of §3.4 that C04 relates to the repository's struct tags) for a v1 leaf without
+    extensions — the C06 model has no private copy of the layout. -/
+def toWire : Entry → Rfc.SignedEntry
+  | .x509 c => .x509 c
+  | .precert k t => .precert ⟨k, t⟩
+
+theorem encLeaf_eq_wire (e : Entry) (ts : Nat) (hts : ts < 2 ^ 64)
+    (he : match e with
+      | .x509 c => 1 ≤ c.length ∧ c.length ≤ 16777215
+      | .precert k t => k.length = 32 ∧ 1 ≤ t.length ∧ t.length ≤ 16777215) :
+    Rfc.merkleTreeLeaf ⟨0, ⟨ts, toWire e, []⟩⟩ = some (encLeaf e ts) := by
+  have h8 : ts < 256 ^ 8 := by simpa using hts
+  cases e with
+  | x509 c =>
+    obtain ⟨h1, h2⟩ := he
+    simp [Rfc.merkleTreeLeaf, Rfc.timestampedEntry, Rfc.signedEntry, Rfc.uintN, Rfc.asn1Cert, Rfc.varVector, Rfc.ctExtensions,
+      Rfc.lenWidth, Rfc.SignedEntry.entryType, toWire, encLeaf, h8, h1, h2, beEnc, Option.bind]
+  | precert k t =>
+    obtain ⟨h0, h1, h2⟩ := he
+    simp [Rfc.merkleTreeLeaf, Rfc.timestampedEntry, Rfc.signedEntry, Rfc.uintN, Rfc.preCert, Rfc.opaqueFixed, Rfc.varVector,
+      Rfc.ctExtensions, Rfc.lenWidth, Rfc.SignedEntry.entryType, toWire, encLeaf, h8, h0, h1, h2, beEnc, Option.bind]
 
 /-- For X.509 entries the hypothesis `ValuesIdentify` of `sct_findable_partial` holds outright when the
     identity hash is a function of the certificate (CTFE: SHA-256 of the leaf certificate's DER). -/
